@@ -94,3 +94,26 @@ func VerifHarness_C05_stream() {
 		verifReach("someDelivered")
 	}
 }
+
+// C05 / C09 — halfConn.decrypt for CBC on an ARBITRARY record (whole blocks, 3 or 4 of them after the IV):
+// never panics; every failure is exactly bad_record_mac and leaves the sequence number alone; success advances
+// it by one. (Without the sender's MAC log every accepted record would be a forgery: none may be accepted.)
+//
+//verif:harness props=C05,C09 paths=20000 split reach=rejected
+func VerifHarness_C05_decrypt_cbc() {
+	blocks := verifSplitInt("blocks", 3, 4)
+	rec := verifNondetBytes("record", vmacRecordHeaderLen+16+16*blocks)
+	hc := &halfConn{cipher: &verifCBC{}, mac: &verifMAC{}}
+	copy(hc.seq[:], verifNondetBytes("seq", 8))
+	before := hc.seq
+	vmac.wire = rec
+	vmac.recStarts = []int{0}
+	_, _, err := hc.decrypt(rec)
+	if err != nil {
+		verifReach("rejected")
+		verifAssert("C05.decrypt.uniformAlert", err == error(alertBadRecordMAC))
+		verifAssert("C05.decrypt.seqUnchangedOnFailure", hc.seq == before)
+	} else {
+		verifAssert("C05.decrypt.noForgeryAccepted", false)
+	}
+}
